@@ -427,7 +427,9 @@ def fam_registry(seed, i):
     handles = {c: {} for c in cl}
     main = []
     # some explicitly spawned instances of the service types, to be registered / to replace
-    for k in range(rng.choice([0, 1, 1, 2])):
+    nsp = rng.choice([0, 1, 1, 2])
+    acnt = [nsp]
+    for k in range(nsp):
         c = rng.choice(cl)
         ty = rng.choice(types)
         main.append({"op": "spawn", "a": f"a{k+1}", "nh": f"s{k+1}", "cfg": {"ty": ty, "pscr": [Y] * rng.choice([0, 1]), "sscr": [[Y] * rng.choice([0, 1])]}, "entry": "builder"})
@@ -436,15 +438,16 @@ def fam_registry(seed, i):
     if rng.random() < 0.3:
         main.append({"op": rng.choice(["from_registry", "setup"]), "ty": rng.choice(types), "nh": "m0"})
     sc["clients"]["main"] = main or [{"op": "yield"}]
-    w = {"from_registry": 6, "setup": 1.5, "register": 2, "replace": 1.5, "unregister": 2, "try_from_registry": 3, "already_running": 3,
+    w = {"from_registry": 6, "setup": 1.5, "register": 2, "replace": 1.5, "unregister": 2, "try_from_registry": 3, "already_running": 3, "spawn_register": 2.5,
          "stop": 2, "await": 1, "await_ref": 0.7, "stopped": 2, "running": 1, "send": 2, "call": 2, "drop": 2, "yield": 3, "clone": 0.5, "halt": 0.7}
     scripts = [[], [Y], [eff("ctx_stop")], [eff("ctx_stop")]]
-    if rng.random() < 0.3:
-        scripts += [[eff("panic")], [eff("panic")]]          # a registered instance that dies of a failure
+    if rng.random() < 0.4:
+        scripts += [[eff("panic")], [eff("panic")], [eff("panic")]]          # a registered instance that dies of a failure
     cnt = [0]
     for c in cl:
         p = Prog(rng, c, handles[c], w, scripts, cnt)
         p.types = types
+        p.acnt = acnt
         sc["clients"][c] = p.run(rng.randint(2, 8))
     return sc
 
